@@ -11,6 +11,8 @@ import MesonModel.Install.InstallLog3
 import MesonModel.Install.FilesLemmas
 import MesonModel.Install.GlueLemmas
 import MesonModel.Install.OnlyChanged
+import MesonModel.Install.TouchLemmas
+import MesonModel.Install.AllRules
 
 namespace MesonModel.Props.C11
 open MesonModel.Install MesonModel.Py
@@ -606,6 +608,321 @@ theorem only_changed_overlap_counterexample : ¬ only_changed_idempotent_full_st
     ⟨rfl, rfl, rfl⟩ (by decide) (by decide +kernel) (by decide +kernel) (["d", "usr", "share", "x"].map String.toList)
   revert this
   decide +kernel
+
+/-! ### `--only-changed`: the decision on file metadata, and what it leaves -/
+
+/-- **the decision of `meson install --only-changed`** (`should_preserve_existing_file`) as a function of the
+metadata it reads: an existing destination is preserved iff the option is given, the source is a regular file or
+a link to one (its time stamp `mt`, in nanoseconds, is the one `stat` reports), and the destination is a regular
+file (or a link to one) whose time stamp is at least `mt` — *the destination is at least as new*, nothing coarser -/
+theorem preserve_iff_destination_at_least_as_new (cfg : Cfg) (src : Src) (s : St) (kt : Key) :
+    shouldPreserve cfg src s kt = true ↔
+      cfg.onlyChanged = true ∧ ∃ mt, srcMtime src = some mt ∧
+        ∃ m d tt, s.fs.follow kt = some (.file m d tt) ∧ mt ≤ tt :=
+  shouldPreserve_iff cfg src s kt
+
+/-- a source that is newer than the destination by any amount — one nanosecond included — is installed again -/
+theorem newer_source_is_never_preserved (cfg : Cfg) (src : Src) (s : St) (kt : Key) (mt m d tt : Nat)
+    (hs : srcMtime src = some mt) (hd : s.fs.follow kt = some (.file m d tt)) (hlt : tt < mt) :
+    shouldPreserve cfg src s kt = false :=
+  shouldPreserve_newer cfg src s kt mt m d tt hs hd hlt
+
+/-- the two time stamps may lie in the same clock second (0.2 s and 0.7 s past it), or one nanosecond apart -/
+example :
+    let cfg : Cfg := { cwd := "/b".toList, buildDir := "/b".toList, destdir := [], fullprefix := "/usr".toList,
+                       umask := none, procUmask := 0o022, dryRun := false, onlyChanged := true, tags := none, skip := [] }
+    let k : Key := ["d", "f"].map String.toList
+    let st (t : Nat) : St := { fs := [(k, .file 0o644 1 t)] }
+    shouldPreserve cfg (.file 0o644 2 1700000000700000000) (st 1700000000200000000) k = false ∧
+    shouldPreserve cfg (.file 0o644 2 1700000000200000001) (st 1700000000200000000) k = false ∧
+    shouldPreserve cfg (.file 0o644 2 1700000000200000000) (st 1700000000200000000) k = true ∧
+    shouldPreserve cfg (.file 0o644 2 1700000000200000000) (st 1700000000200000001) k = true ∧
+    shouldPreserve cfg (.linkFile "x".toList 0o644 2 1700000000200000001) (st 1700000000200000000) k = false ∧
+    shouldPreserve cfg (.linkDangling "x".toList) (st 1700000000200000000) k = false ∧
+    shouldPreserve { cfg with onlyChanged := false } (.file 0o644 2 5) (st 1700000000200000000) k = false := by
+  decide +kernel
+
+/-- **created = planned, with or without `--only-changed`, on any link-free tree** (not only a fresh one).  For the
+plans of `exact`: after a successful real run each selected rule's destination holds `ocNode` of what was there
+before — the old content and time stamp (permission rule re-applied) exactly when `--only-changed` is on and the
+destination was a regular file at least as new as the source, the source's content and time stamp otherwise; for
+targets `ocTargetNode` (a kept target is not even re-`chmod`ed).  Every other key is as before or a new directory. -/
+theorem only_changed_exact (p : Plan) (o : Opts) (fs : FS) (hp : PlanOK p) (hl : LinkFree p) (hfo : FilesOnly p)
+    (htf : TargetsAreFiles p) (hdry : o.dryRun = false)
+    (hne : (mkCfg p o).destdir ≠ []) (hD : keyOfAbs (mkCfg p o).destdir ≠ []) (hNL : NL fs)
+    (hnd : (plannedKeys (mkCfg p o) p).Nodup) (hok : (install p o fs).err = none) :
+    NL (install p o fs).fs ∧
+    (∀ t ∈ p.targets, selTarget (mkCfg p o) t = true →
+      (install p o fs).fs.get (targetKey (mkCfg p o) t) =
+        some (ocTargetNode (mkCfg p o) t.mode t.src (fs.get (targetKey (mkCfg p o) t)))) ∧
+    (∀ e ∈ p.headers, selData (mkCfg p o) e = true →
+      (install p o fs).fs.get (headerKey (mkCfg p o) e) =
+        some (ocNode (mkCfg p o) e.mode e.src (fs.get (headerKey (mkCfg p o) e)))) ∧
+    (∀ e ∈ p.man, selData (mkCfg p o) e = true →
+      (install p o fs).fs.get (dataKey (mkCfg p o) e) =
+        some (ocNode (mkCfg p o) e.mode e.src (fs.get (dataKey (mkCfg p o) e)))) ∧
+    (∀ e ∈ p.data, selData (mkCfg p o) e = true →
+      (install p o fs).fs.get (dataKey (mkCfg p o) e) =
+        some (ocNode (mkCfg p o) e.mode e.src (fs.get (dataKey (mkCfg p o) e)))) ∧
+    (∀ k, k ∉ plannedKeys (mkCfg p o) p → (install p o fs).fs.get k = fs.get k ∨
+      (fs.get k = none ∧ (install p o fs).fs.get k = some (.dir (andNot 0o777 (mkCfg p o).procUmask)))) := by
+  have hd : isAbs (mkCfg p o).destdir = true := isAbs_resolveDestdir p.buildDir o.destdir hp.buildAbs hne
+  have hdest := dest_mkCfg p o hd
+  obtain ⟨oT, oH, oM, oD⟩ := okRules_of p hp hl htf
+  have hf : (installBody (mkCfg p o) p { fs := fs, log := logHeader }).failed = false := by
+    unfold install at hok; dsimp only at hok; simp [St.failed, hok]
+  exact filesBody_exact_oc (mkCfg p o) (by simp [mkCfg, hdry]) hD hdest p hfo oT oH oM oD hnd
+    { fs := fs, log := logHeader } hNL hf
+
+/-- what `only_changed_exact` says about a destination that is older than its source, by however little:
+it holds the source's content -/
+theorem only_changed_overwrites_older (cfg : Cfg) (mode : Option FileMode) (m d t m' d' t' : Nat) (h : t' < t) :
+    ocNode cfg mode (.file m d t) (some (.file m' d' t')) = .file (modeRule cfg mode m) d t ∧
+    ocTargetNode cfg mode (.file m d t) (some (.file m' d' t')) = .file (modeRule cfg mode m) d t :=
+  ocNode_not_keeps cfg mode m d t _ (by
+    rintro ⟨_, _, _, t2, e2, hle⟩
+    cases e2
+    omega)
+
+/-- **install; rewrite sources; install `--only-changed`.**  For the plans of `exact`: after a successful
+installation the sources are rewritten by `g` — each one either left alone or replaced by a regular file with any
+content and permissions and a *strictly later time stamp, however close* (`Rewritten`) — and
+`meson install --only-changed` runs successfully.  Then every selected rule's destination holds the node of the
+**current** source (new content, new time stamp, documented permissions): nothing stale survives.  Every other key
+is as the first installation left it (or a new directory). -/
+theorem install_modify_only_changed (p : Plan) (o : Opts) (fs : FS) (g : Str → Src → Src)
+    (hg : ∀ path src, Rewritten src (g path src))
+    (hp : PlanOK p) (hl : LinkFree p) (hfo : FilesOnly p) (htf : TargetsAreFiles p)
+    (hdry : o.dryRun = false) (honly : o.onlyChanged = false)
+    (hne : (mkCfg p o).destdir ≠ []) (hD : keyOfAbs (mkCfg p o).destdir ≠ []) (hNL : NL fs)
+    (hnd : (plannedKeys (mkCfg p o) p).Nodup) (hok1 : (install p o fs).err = none)
+    (hok2 : (install (touchPlan g p) { o with onlyChanged := true } (install p o fs).fs).err = none) :
+    (∀ t ∈ p.targets, selTarget (mkCfg p o) t = true →
+      (install (touchPlan g p) { o with onlyChanged := true } (install p o fs).fs).fs.get (targetKey (mkCfg p o) t) =
+        some (targetNode (mkCfg p o) (touchTarget g t))) ∧
+    (∀ e ∈ p.headers, selData (mkCfg p o) e = true →
+      (install (touchPlan g p) { o with onlyChanged := true } (install p o fs).fs).fs.get (headerKey (mkCfg p o) e) =
+        some (fileNode (mkCfg p o) (touchData g e))) ∧
+    (∀ e ∈ p.man, selData (mkCfg p o) e = true →
+      (install (touchPlan g p) { o with onlyChanged := true } (install p o fs).fs).fs.get (dataKey (mkCfg p o) e) =
+        some (fileNode (mkCfg p o) (touchData g e))) ∧
+    (∀ e ∈ p.data, selData (mkCfg p o) e = true →
+      (install (touchPlan g p) { o with onlyChanged := true } (install p o fs).fs).fs.get (dataKey (mkCfg p o) e) =
+        some (fileNode (mkCfg p o) (touchData g e))) ∧
+    (∀ k, k ∉ plannedKeys (mkCfg p o) p →
+      (install (touchPlan g p) { o with onlyChanged := true } (install p o fs).fs).fs.get k = (install p o fs).fs.get k ∨
+      ((install p o fs).fs.get k = none ∧
+        (install (touchPlan g p) { o with onlyChanged := true } (install p o fs).fs).fs.get k =
+          some (.dir (andNot 0o777 (mkCfg p o).procUmask)))) := by
+  obtain ⟨n1, gT, gH, gM, gD, _⟩ := exact p o fs hp hl hfo htf hdry honly hne hD hNL hnd hok1
+  have hd : isAbs (mkCfg p { o with onlyChanged := true }).destdir = true :=
+    isAbs_resolveDestdir p.buildDir o.destdir hp.buildAbs hne
+  have hdest := dest_mkCfg p { o with onlyChanged := true } hd
+  obtain ⟨oT, oH, oM, oD⟩ := okRules_of p hp hl htf
+  have hfs : (install (touchPlan g p) { o with onlyChanged := true } (install p o fs).fs).err =
+      (installBody (mkCfg p { o with onlyChanged := true }) (touchPlan g p)
+        { fs := (install p o fs).fs, log := logHeader }).err := rfl
+  have hf : (installBody (mkCfg p { o with onlyChanged := true }) (touchPlan g p)
+      { fs := (install p o fs).fs, log := logHeader }).failed = false := by
+    rw [hfs] at hok2; simp [St.failed, hok2]
+  exact filesBody_touch_only_changed (mkCfg p { o with onlyChanged := true }) (by simp [mkCfg, hdry]) (by simp [mkCfg])
+    hD hdest p g hg hfo oT oH oM oD hnd { fs := (install p o fs).fs, log := logHeader } n1 gT gH gM gD hf
+
+/-- the sources of `filesPlan` rewritten: the header half a second later *within the same clock second*, the data
+file one nanosecond later, the target left alone -/
+def rewriteDemo (path : Str) : Src → Src
+  | .file m d t =>
+    if path = "/s/a b.h".toList ∧ t < 1700000000700000000 then .file 0o600 70 1700000000700000000
+    else if path = "/s/t".toList ∧ t < 1700000000200000001 then .file 0o755 90 1700000000200000001
+    else .file m d t
+  | s => s
+
+def subsecPlan : Plan :=
+  { filesPlan with
+    headers := [{ path := "/s/a b.h".toList, src := .file 0o600 7 1700000000200000000, installPath := "include".toList,
+                  mode := none, subproject := [], tag := none, follow := none }]
+    data := [{ path := "/s/t".toList, src := .file 0o755 9 1700000000200000000, installPath := "/opt/t o/t".toList,
+               mode := some { perms := some 0o750, chown := false }, subproject := [], tag := none, follow := none }] }
+
+/-- the hypotheses of `install_modify_only_changed` are satisfiable, and its conclusion is visible: the header
+rewritten 0.5 s later in the same second and the data file rewritten 1 ns later are both installed again, the
+untouched target is kept -/
+example :
+    (∀ path src, Rewritten src (rewriteDemo path src)) ∧
+    FileRulePlan subsecPlan ∧ (plannedKeys (mkCfg subsecPlan lfOpts) subsecPlan).Nodup ∧
+    (install subsecPlan lfOpts lfFs).err = none ∧
+    (install (touchPlan rewriteDemo subsecPlan) { lfOpts with onlyChanged := true } (install subsecPlan lfOpts lfFs).fs).err = none ∧
+    (install (touchPlan rewriteDemo subsecPlan) { lfOpts with onlyChanged := true } (install subsecPlan lfOpts lfFs).fs).fs.get
+      (["d", "usr", "include", "a b.h"].map String.toList) = some (.file 0o644 70 1700000000700000000) ∧
+    (install (touchPlan rewriteDemo subsecPlan) { lfOpts with onlyChanged := true } (install subsecPlan lfOpts lfFs).fs).fs.get
+      (["d", "opt", "t o", "t"].map String.toList) = some (.file 0o750 90 1700000000200000001) ∧
+    (install (touchPlan rewriteDemo subsecPlan) { lfOpts with onlyChanged := true } (install subsecPlan lfOpts lfFs).fs).fs.get
+      (["d", "usr", "bin", "prog"].map String.toList) = some (.file 0o755 11 5) := by
+  refine ⟨?_, by decide, by decide +kernel, by decide +kernel, by decide +kernel, by decide +kernel,
+    by decide +kernel, by decide +kernel⟩
+  intro path src
+  cases src with
+  | file m d t =>
+    show Rewritten (.file m d t)
+      (if path = "/s/a b.h".toList ∧ t < 1700000000700000000 then .file 0o600 70 1700000000700000000
+       else if path = "/s/t".toList ∧ t < 1700000000200000001 then .file 0o755 90 1700000000200000001
+       else .file m d t)
+    by_cases h1 : path = "/s/a b.h".toList ∧ t < 1700000000700000000
+    · rw [if_pos h1]; exact Or.inr ⟨_, _, _, _, _, _, rfl, rfl, h1.2⟩
+    · rw [if_neg h1]
+      by_cases h2 : path = "/s/t".toList ∧ t < 1700000000200000001
+      · rw [if_pos h2]; exact Or.inr ⟨_, _, _, _, _, _, rfl, rfl, h2.2⟩
+      · rw [if_neg h2]; exact Or.inl rfl
+  | missing => exact Or.inl rfl
+  | dir => exact Or.inl rfl
+  | linkDangling _ => exact Or.inl rfl
+  | linkFile _ _ _ _ => exact Or.inl rfl
+  | linkDir _ => exact Or.inl rfl
+
+/-! ### plans with empty directories (and the open part: subdirectories, symlinks) -/
+
+/-- every rule of the plan is one the proofs cover: file targets, plain-file sources -/
+theorem rulesOk_of (p : Plan) (hp : PlanOK p) (hl : LinkFree p) (ht : TargetsAreFiles p) : ∀ r ∈ rulesOf p, ruleOk r := by
+  obtain ⟨oT, oH, oM, oD⟩ := okRules_of p hp hl ht
+  intro r hr
+  unfold rulesOf at hr
+  simp only [List.mem_append, List.mem_map] at hr
+  rcases hr with ⟨t, ht', rfl⟩ | ⟨e, he, rfl⟩ | ⟨e, he, rfl⟩ | ⟨e, _, rfl⟩ | ⟨e, he, rfl⟩
+  · exact oT t ht'
+  · exact oH e he
+  · exact oM e he
+  · trivial
+  · exact oD e he
+
+/-- **created = planned for plans with `install_emptydir`** (file targets, headers, man pages, empty directories,
+data; no `install_subdir`, no `install_symlink`), pairwise different destinations, with or without `--only-changed`,
+on ANY link-free tree (fresh or not): after a successful real run every selected rule's destination holds
+`ruleNode` of what was there before — for an empty-directory rule a directory whose permissions are the documented
+rule (`install_mode`, else `install_umask` on the default, else unchanged) applied to the permissions an existing
+directory had, or to `0o777 & ~umask` for one the installer creates; for file rules as in `only_changed_exact`.
+Every other key is as before or a new directory with mode `0o777 & ~umask`.  This is the proved part
+(`_partial`) of `exact_all_kinds_full_statement`. -/
+theorem exact_all_kinds_partial (p : Plan) (o : Opts) (fs : FS) (hp : PlanOK p) (hl : LinkFree p)
+    (hsub : p.subdirs = []) (hsym : p.symlinks = []) (htf : TargetsAreFiles p) (hdry : o.dryRun = false)
+    (hne : (mkCfg p o).destdir ≠ []) (hD : keyOfAbs (mkCfg p o).destdir ≠ []) (hNL : NL fs)
+    (hnd : (ruleKeys (mkCfg p o) p).Nodup) (hok : (install p o fs).err = none) :
+    NL (install p o fs).fs ∧
+    (∀ r ∈ rulesOf p, ruleSel (mkCfg p o) r = true →
+      (install p o fs).fs.get (ruleKey (mkCfg p o) r) = some (ruleNode (mkCfg p o) r (fs.get (ruleKey (mkCfg p o) r)))) ∧
+    (∀ k, k ∉ ruleKeys (mkCfg p o) p → (install p o fs).fs.get k = fs.get k ∨
+      (fs.get k = none ∧ (install p o fs).fs.get k = some (.dir (andNot 0o777 (mkCfg p o).procUmask)))) := by
+  have hd : isAbs (mkCfg p o).destdir = true := isAbs_resolveDestdir p.buildDir o.destdir hp.buildAbs hne
+  have hdest := dest_mkCfg p o hd
+  have hf : (installBody (mkCfg p o) p { fs := fs, log := logHeader }).failed = false := by
+    unfold install at hok; dsimp only at hok; simp [St.failed, hok]
+  exact rulesBody_exact (mkCfg p o) (by simp [mkCfg, hdry]) hD hdest p hsub hsym (rulesOk_of p hp hl htf) hnd
+    { fs := fs, log := logHeader } hNL hf
+
+/-- the empty-directory clause of `exact_all_kinds_partial`, spelled out -/
+theorem emptydir_rule (p : Plan) (o : Opts) (fs : FS) (hp : PlanOK p) (hl : LinkFree p)
+    (hsub : p.subdirs = []) (hsym : p.symlinks = []) (htf : TargetsAreFiles p) (hdry : o.dryRun = false)
+    (hne : (mkCfg p o).destdir ≠ []) (hD : keyOfAbs (mkCfg p o).destdir ≠ []) (hNL : NL fs)
+    (hnd : (ruleKeys (mkCfg p o) p).Nodup) (hok : (install p o fs).err = none)
+    (e : EmptyDirEntry) (he : e ∈ p.emptydirs) (hs : selEmpty (mkCfg p o) e = true) :
+    (install p o fs).fs.get (emptyKey (mkCfg p o) e) = some (.dir (modeRule (mkCfg p o) e.mode
+      (match fs.get (emptyKey (mkCfg p o) e) with
+       | some (.dir m) => m
+       | _ => andNot 0o777 (mkCfg p o).procUmask))) := by
+  obtain ⟨_, g, _⟩ := exact_all_kinds_partial p o fs hp hl hsub hsym htf hdry hne hD hNL hnd hok
+  have hr : Rule.E e ∈ rulesOf p := by
+    unfold rulesOf
+    simp only [List.mem_append, List.mem_map]
+    exact Or.inr (Or.inr (Or.inr (Or.inl ⟨e, he, rfl⟩)))
+  have := g (.E e) hr hs
+  rw [show ruleKey (mkCfg p o) (.E e) = emptyKey (mkCfg p o) e from rfl] at this
+  rw [this]
+  show some (emptyNode (mkCfg p o) e (fs.get (emptyKey (mkCfg p o) e))) = _
+  unfold emptyNode
+  cases fs.get (emptyKey (mkCfg p o) e) with
+  | none => rfl
+  | some n => cases n <;> rfl
+
+theorem ruleNode_idem (cfg : Cfg) (honly : cfg.onlyChanged = false) (r : Rule) (x : Option Node) :
+    ruleNode cfg r (some (ruleNode cfg r x)) = ruleNode cfg r x := by
+  have hoc : ∀ (mode : Option FileMode) (src : Src) (a b : Option Node),
+      ocNode cfg mode src a = ocNode cfg mode src b ∧ ocTargetNode cfg mode src a = ocTargetNode cfg mode src b := by
+    intro mode src a b
+    unfold ocNode ocTargetNode
+    cases src <;> try exact ⟨rfl, rfl⟩
+    cases a with
+    | none => cases b with
+      | none => exact ⟨rfl, rfl⟩
+      | some nb => cases nb <;> simp [honly]
+    | some na =>
+      cases b with
+      | none => cases na <;> simp [honly]
+      | some nb => cases na <;> cases nb <;> simp [honly]
+  cases r with
+  | T t => exact (hoc t.mode t.src _ _).2
+  | H e => exact (hoc e.mode e.src _ _).1
+  | M e => exact (hoc e.mode e.src _ _).1
+  | D e => exact (hoc e.mode e.src _ _).1
+  | E e =>
+    show emptyNode cfg e (some (emptyNode cfg e x)) = emptyNode cfg e x
+    unfold emptyNode
+    cases x with
+    | none => simp [modeRule_idem]
+    | some n => cases n <;> simp [modeRule_idem]
+
+/-- **installing twice leaves every planned destination as installing once left it**, for the plans of
+`exact_all_kinds_partial` (empty directories included): the `_partial` form of `install_idempotent_full_statement`
+(destinations only; that no *other* key changes is proved for file-rule plans in `install_idempotent`) -/
+theorem install_idempotent_destinations_partial (p : Plan) (o : Opts) (fs : FS) (hp : PlanOK p) (hl : LinkFree p)
+    (hsub : p.subdirs = []) (hsym : p.symlinks = []) (htf : TargetsAreFiles p) (hdry : o.dryRun = false)
+    (honly : o.onlyChanged = false)
+    (hne : (mkCfg p o).destdir ≠ []) (hD : keyOfAbs (mkCfg p o).destdir ≠ []) (hNL : NL fs)
+    (hnd : (ruleKeys (mkCfg p o) p).Nodup) (hok1 : (install p o fs).err = none)
+    (hok2 : (install p o (install p o fs).fs).err = none) :
+    ∀ r ∈ rulesOf p, ruleSel (mkCfg p o) r = true →
+      (install p o (install p o fs).fs).fs.get (ruleKey (mkCfg p o) r) = (install p o fs).fs.get (ruleKey (mkCfg p o) r) := by
+  obtain ⟨n1, g1, _⟩ := exact_all_kinds_partial p o fs hp hl hsub hsym htf hdry hne hD hNL hnd hok1
+  obtain ⟨_, g2, _⟩ := exact_all_kinds_partial p o _ hp hl hsub hsym htf hdry hne hD n1 hnd hok2
+  intro r hr hs
+  rw [g2 r hr hs, g1 r hr hs, ruleNode_idem (mkCfg p o) (by simp [mkCfg, honly])]
+
+/-- the full statement of exactness-by-idempotence for ALL plan kinds (install_subdir with excludes and
+strip_directory, install_symlink, symlink sources): a second successful `meson install` leaves every key as the first
+left it.  Open: neither proved nor refuted in Lean; carried by the per-run correspondence (model = real installer on
+generated plans with subdirectories, excludes, symlinks) and the tree-diff oracle. -/
+def install_idempotent_full_statement : Prop :=
+  ∀ (p : Plan) (o : Opts) (fs : FS), PlanOK p → o.dryRun = false → o.onlyChanged = false →
+    (mkCfg p o).destdir ≠ [] → WF fs → (install p o fs).err = none → (install p o (install p o fs).fs).err = none →
+    ∀ k, (install p o (install p o fs).fs).fs.get k = (install p o fs).fs.get k
+
+/-- the full statement of reversibility for ALL plan kinds (`uninstall_after_install_restores` without `LinkFree`) -/
+def uninstall_after_install_full_statement : Prop :=
+  ∀ (p : Plan) (o : Opts) (fs : FS), PlanOK p → o.dryRun = false → (mkCfg p o).destdir ≠ [] →
+    keyOfAbs (mkCfg p o).destdir ≠ [] → (∀ k, keyOfAbs (mkCfg p o).destdir <+: k → fs.get k = none) →
+    NL fs → WF fs → (install p o fs).err = none →
+    ∀ k, (uninstall p.buildDir (install p o fs).log (install p o fs).fs).get k = fs.get k
+
+/-- a plan with an empty directory (declared mode), one below a header's directory, and file rules -/
+def emptyPlan : Plan :=
+  { filesPlan with
+    emptydirs := [{ path := "var/e".toList, mode := some { perms := some 0o700, chown := false }, subproject := [], tag := none },
+                  { path := "include/sub".toList, mode := none, subproject := [], tag := none }] }
+
+/-- the hypotheses of `exact_all_kinds_partial` are satisfiable and its conclusion visible; a pre-existing
+directory with permissions 0o711 ends with 0o755 (`install_umask` 022 applied to 0o777, because it has an execute bit) -/
+example :
+    PlanOK emptyPlan ∧ LinkFree emptyPlan ∧ TargetsAreFiles emptyPlan ∧
+    (ruleKeys (mkCfg emptyPlan lfOpts) emptyPlan).Nodup ∧
+    (install emptyPlan lfOpts lfFs).err = none ∧
+    (install emptyPlan lfOpts (install emptyPlan lfOpts lfFs).fs).err = none ∧
+    (install emptyPlan lfOpts lfFs).fs.get (["d", "usr", "var", "e"].map String.toList) = some (.dir 0o700) ∧
+    (install emptyPlan lfOpts lfFs).fs.get (["d", "usr", "include", "sub"].map String.toList) = some (.dir 0o755) ∧
+    (install emptyPlan lfOpts ((lfFs.set (["d"].map String.toList) (.dir 0o755)).set (["d", "usr"].map String.toList) (.dir 0o755)
+      |>.set (["d", "usr", "include"].map String.toList) (.dir 0o755)
+      |>.set (["d", "usr", "include", "sub"].map String.toList) (.dir 0o711))).fs.get
+        (["d", "usr", "include", "sub"].map String.toList) = some (.dir 0o755) := by
+  refine ⟨⟨by decide, by decide, by decide, by decide, by decide, by decide⟩,
+    ⟨by decide, by decide, by decide, by decide, by decide, by decide⟩, by decide, by decide +kernel,
+    by decide +kernel, by decide +kernel, by decide +kernel, by decide +kernel, by decide +kernel⟩
 
 /-! ### from the build definition to the install data (backend glue) -/
 
